@@ -427,6 +427,21 @@ func (m *ServeModel) runningFact(fs []Fact, pol bool) bool {
 			return true
 		}
 	}
+	// the lifecycle kept as an enumeration: `state == stateServing` / `state != stateServing` / `state == <another state>`
+	if svcF.RunningVal != "" {
+		for _, f := range fs {
+			for _, pr := range [][2]string{{f.A, f.B}, {f.B, f.A}} {
+				if !strings.HasSuffix(strip(pr[0]), "."+svcF.Running) || !strings.HasPrefix(pr[1], "const:") {
+					continue
+				}
+				isServing := pr[1] == svcF.RunningVal
+				switch {
+				case f.Op == "EQ" && isServing && pol, f.Op == "NE" && isServing && !pol, f.Op == "EQ" && !isServing && !pol:
+					return true
+				}
+			}
+		}
+	}
 	return false
 }
 
